@@ -112,3 +112,7 @@ brk("c31-rtw-client-test-size-from-specimen-length", SC,
     "                TestVector(offset=offset, size=size, specimen=specimen)",
     "                TestVector(offset=offset, size=len(specimen), specimen=specimen)",
     note="same mistake in the IStorageServer adapter: only the adapter layer shows it")
+# ---- = seeded/C31-6: the first missing share number stops slot_readv's result collection
+brk("c31-slot-readv-adapter-stops-at-first-missing-share", SC,
+    "                    and e.subFailure.value.code == http.NOT_FOUND\n                ):\n                    continue\n",
+    "                    and e.subFailure.value.code == http.NOT_FOUND\n                ):\n                    break\n")
